@@ -1237,6 +1237,14 @@ def check_c11_chain(an):
     return [V("C11", "recorded_sample_conversion", v.msg, v.witness) for v in vs if v.code == "recorded_vs_clock"], {"e2e_samples": info.get("chain_samples", 0)}
 
 
+def check_c11_budget(an):
+    """C11 where a Duration option meets the clock: a time limit of D ns is exactly D * 1000 ps, so a run whose elapsed time stands
+    1 ns below (or on) the limit stops in the round the documented rule names (the rule itself is C04's; here only configurations
+    built to expose the conversion are judged)."""
+    vs, info = check_c04(an)
+    return [V("C11", "duration_option_conversion", v.msg, v.witness) for v in vs if v.code in ("stopped_early", "ran_too_long")], {"budget_runs": 1}
+
+
 ALL_CHECKS = {
     "C11": [check_c11_chain],
     "C01": [check_c01],
